@@ -922,6 +922,18 @@ func completionAgree(p *core.Prog, r *core.Result, sp *ssa.Package, ctxNamed *ty
 			}
 			sum := c.summary(mf)
 			for _, v := range sum {
+				if v["unfolder"] < -vi["unfolder"] {
+					inv := false
+					for k := range v {
+						if strings.HasPrefix(k, "invoke:") {
+							inv = true
+						}
+					}
+					if !inv {
+						bad = fmt.Sprintf("%s pushes {%s}; %s.%s moves the unfolder stack by %d on some path, more frames than the initialiser pushed: it removes states that belong to an enclosing value, which then never sees the rest of its own events", core.FuncKey(f), deltaKey(vi), core.TypeName(namedOf(tp.Elem())), ev, v["unfolder"])
+					}
+					continue
+				}
 				if v["unfolder"] != -vi["unfolder"] {
 					continue
 				}
